@@ -212,7 +212,7 @@ pub fn run_c06(cfg: &Cfg) -> Report {
 /// C14, AML half: every generated object through all six sinks, twice.
 pub fn run_c14_aml(cfg: &Cfg) -> Report {
     let thorough = cfg.tier == Tier::Thorough;
-    let n = cfg.scaled(if thorough { 1_000_000 } else { 12_000 });
+    let n = cfg.scaled(if thorough { 400_000 } else { 12_000 });
     let mut rep = par_cases(cfg, "aml.sinks", n, |cx| {
         let mut r = cx.rng.clone();
         let depth = 1 + r.usize_below(6);
